@@ -1,7 +1,7 @@
 #!/usr/bin/env python3
 """Independent confirmation of seeded changes in a scratch worktree: demo passes without the change, fails with it, the
 full existing suite passes with the change. Writes /verif/seeded/<id>/{patch.diff,demo.diff,README.md,meta.json}.
-usage: confirm_seeded.py <PROP> <A|B> [...]"""
+usage: [SEED_SRC=/tmp/mut2 SEED_IDS=A:C,B:D] confirm_seeded.py <PROP> <A|B> [...]"""
 import json, os, re, shutil, subprocess, sys, time
 
 WT = '/tmp/confirm/wt'
@@ -44,8 +44,9 @@ def main():
         sh('git checkout -q --detach $(git -C /repo rev-parse HEAD)')
     args = sys.argv[1:]
     for prop, which in zip(args[0::2], args[1::2]):
-        src = f'/tmp/mut/{prop}/OUT/{which}'
-        sid = f'{prop}-{which}'
+        src = f"{os.environ.get('SEED_SRC', '/tmp/mut')}/{prop}/OUT/{which}"
+        idmap = dict(x.split(':') for x in os.environ.get('SEED_IDS', '').split(',') if x)
+        sid = f'{prop}-{idmap.get(which, which)}'
         dst = f'/verif/seeded/{sid}'
         os.makedirs(dst, exist_ok=True)
         for f in ('patch.diff', 'demo.diff', 'README.md'):
